@@ -225,9 +225,21 @@ fn sfn_rec(s: &str) -> J {
         }
         Err(_) => (false, vec![], vec![]),
     }));
+    // the way every call of the API takes a name: the ToShortFileName conversion of a &str
+    let t = catch_unwind(AssertUnwindSafe(|| {
+        use embedded_sdmmc::filesystem::ToShortFileName;
+        match s.to_short_filename() {
+            Ok(n) => (true, crate::fs::sfn_bytes(&n).to_vec()),
+            Err(_) => (false, vec![]),
+        }
+    }));
+    let (tpanic, tok, tname) = match t {
+        Ok((o, n)) => (false, o, n),
+        Err(_) => (true, false, vec![]),
+    };
     match r {
-        Ok((ok, name, re)) => json!({"ev": "Sfn", "s": cps, "panic": false, "ok": ok, "name": name, "reparse": re}),
-        Err(_) => json!({"ev": "Sfn", "s": cps, "panic": true, "ok": false, "name": [], "reparse": []}),
+        Ok((ok, name, re)) => json!({"ev": "Sfn", "s": cps, "panic": tpanic, "ok": ok, "name": name, "reparse": re, "tok": tok, "tname": tname}),
+        Err(_) => json!({"ev": "Sfn", "s": cps, "panic": true, "ok": false, "name": [], "reparse": [], "tok": tok, "tname": tname}),
     }
 }
 
@@ -332,6 +344,20 @@ pub fn codec_vectors(out: &mut dyn Write, tier: &str, seed: u64) -> J {
                 emit(sfn_rec(&s), out, &mut n);
             }
         }
+    }
+    // full 8.3 names made of upper-half characters (two UTF-8 bytes each): every mix of ASCII / upper half over the 11 places
+    for mask in 0u32..2048 {
+        if quick && mask % 5 != 0 && mask != 2047 && mask.count_ones() < 10 {
+            continue;
+        }
+        let mut st = String::new();
+        for i in 0..11 {
+            if i == 8 {
+                st.push('.');
+            }
+            st.push(if mask & (1 << i) != 0 { char::from_u32(0xC0 + i as u32).unwrap() } else { (b'A' + i as u8) as char });
+        }
+        emit(sfn_rec(&st), out, &mut n);
     }
     // every pair of characters of the upper half of ISO-8859-1 next to each other (bytes that happen to form UTF-8 sequences)
     for a in 0x80u32..=0xFF {
